@@ -991,6 +991,17 @@ func main() {
 			fmt.Println("monitor: uniform within the threshold", r2.Extra)
 			return
 		}
+		if c.Fn == "globals" { // the package-level API on (n, k): monitorGlobals
+			fmt.Printf("replay: package-level Sample / SampleSlice / SampleIterator / SampleStream / Shuffle with n=%d k=%d (20 repetitions)\n", c.N, c.K)
+			for rep := 0; rep < 20; rep++ {
+				if kd, w, _ := monitorGlobals(c.N, c.K); kd != "" {
+					fmt.Println("monitor:", kd, w)
+					os.Exit(1)
+				}
+			}
+			fmt.Println("monitor: no clause violated")
+			return
+		}
 		if strings.HasPrefix(c.Fn, "coverage:") {
 			r2 := vlib.NewResult("C19", "")
 			rangeCoverage(r2, strings.TrimPrefix(c.Fn, "coverage:"), c.N, c.K, c.T, c.Seed)
